@@ -255,7 +255,7 @@ func c01DBs(thorough bool) []dbSpec {
 	if thorough {
 		k = 3
 	}
-	for _, s := range uSubsets(len(uPool()), k) {
+	for _, s := range uSubsets(uPoolCore, k) {
 		specs = append(specs, dbSpec{Pool: s})
 	}
 	return specs
@@ -367,6 +367,7 @@ func c01Run(c *lib.Ctx) {
 	}
 	// fuzzy-path accounting: a dedicated pass on a few databases (cheap)
 	c01CacheChains(c)
+	c01TwoWrappers(c)
 	c01FuzzyAccounting(c)
 	if c.Shard < 8 {
 		c01Shipped(c)
@@ -408,6 +409,54 @@ func c01CacheChains(c *lib.Ctx) {
 								c.Violate(lib.Violation{Key: "cache-chain:" + entry, What: fmt.Sprintf("%s wrapper, db %s, query %q: after a request with limit %d, the request with limit %d got: %s", entry, spec, q, l1, l2, bad),
 									Case: sCase{DB: spec, Query: strconv.Quote(q), Opts: Opts{Limit: l2, UseNLP: p.nlp, UseFuzzy: p.fuzzy, FuzzyThreshold: p.thr}, Entry: fmt.Sprintf("chain:%s:%d", entry, l1)}, Observed: items})
 							}
+						}
+					}
+				}
+			}
+		}
+	}
+}
+
+// c01TwoWrappers: two wrappers in one process around different databases are asked the same thing one after
+// the other; each answer must be made of entries of the database its own wrapper searches.
+func c01TwoWrappers(c *lib.Ctx) {
+	if c.Shard != 1 {
+		return
+	}
+	specs := []dbSpec{{Special: "identical12"}, {Special: "forty"}, {Pool: []int{0, 4}}, {Pool: []int{5, 6, 8}}}
+	for xi, sx := range specs {
+		for yi, sy := range specs {
+			if xi == yi {
+				continue
+			}
+			dx, dy := sx.build(c), sy.build(c)
+			for _, q := range []string{"git files", "compress", "files", "list files"} {
+				for _, p := range []c01Path{{false, false, 0}, {true, false, 0}, {true, true, -30}} {
+					for _, entry := range []string{"cached", "monitored", "cached-then-monitored"} {
+						o := Opts{Limit: 5, UseNLP: p.nlp, UseFuzzy: p.fuzzy, FuzzyThreshold: p.thr}
+						var items []resItem
+						switch entry {
+						case "cached":
+							database.NewCachedDatabase(dx).SearchWithOptionsAndCache(q, o)
+							items = uItems(dy, database.NewCachedDatabase(dy).SearchWithOptionsAndCache(q, o))
+						case "monitored":
+							database.NewMonitoredDatabase(dx).SearchWithOptionsAndMonitoring(q, o)
+							items = uItems(dy, database.NewMonitoredDatabase(dy).SearchWithOptionsAndMonitoring(q, o))
+						default:
+							database.NewCachedDatabase(dx).SearchWithOptionsAndCache(q, o)
+							items = uItems(dy, database.NewMonitoredDatabase(dy).SearchWithOptionsAndMonitoring(q, o))
+						}
+						c.Rep.Evaluations += 2
+						c.Count("two_wrapper_cases", 1)
+						bad := uWellFormed(items, 5)
+						if bad == "" {
+							if want := uItems(dy, dy.SearchUniversal(q, o)); uDigest(want) != uDigest(items) {
+								bad = "not the answer of an uncached search of its own database"
+							}
+						}
+						if bad != "" {
+							c.Violate(lib.Violation{Key: "two-wrappers:" + entry, What: fmt.Sprintf("%s: a wrapper around db %s asked %q right after a wrapper around db %s was asked the same: %s", entry, sy, q, sx, bad),
+								Case: sCase{DB: sy, Query: strconv.Quote(q), Opts: o, Entry: fmt.Sprintf("two:%s:%d", entry, xi)}, Observed: items})
 						}
 					}
 				}
@@ -508,6 +557,14 @@ func c01Replay(c *lib.Ctx, raw json.RawMessage) []lib.Violation {
 	if json.Unmarshal(raw, &cs) != nil {
 		return nil
 	}
+	if strings.HasPrefix(cs.Entry, "two:") {
+		// re-run the whole two-wrapper part (cheap) and keep what it reports for this entry kind
+		cc := *c
+		cc.Rep = &lib.Report{Counters: map[string]int64{}}
+		cc.Shard = 1
+		c01TwoWrappers(&cc)
+		return cc.Rep.Violations
+	}
 	if strings.HasPrefix(cs.Entry, "chain:") {
 		parts := strings.Split(cs.Entry, ":")
 		l1, _ := strconv.Atoi(parts[2])
@@ -538,7 +595,7 @@ func c01Replay(c *lib.Ctx, raw json.RawMessage) []lib.Violation {
 func init() {
 	lib.Register(&lib.Check{
 		ID: "C01", Level: "model_checking",
-		Rule:      "full product of: databases = {empty, 12 identical entries, 40 entries} + all subsets of <=2 (quick) / <=3 (thorough) entries of the 31-entry pool; queries = 15 specials + all 1-word + every 7th 2-word sequence over the 22-word alphabet (thorough: on databases of <=2 entries also all other 2-word sequences and 3-word sequences over 8 words); limits {-1,0,1,2,3,N,N+1,1000}; paths {lexical, NLP, fuzzy thr 0/-30, NLP+fuzzy thr 0/-30}; extras {default, pipeline-only, pipeline-boost, all-platforms, two context-boost maps, all-on}; entry points SearchUniversal and cached (hit) always, SearchWithPipelineOptions on the lexical path, Search / monitored / cached (miss) on defaults, recovery searches whenever the engine answer is empty; every ordered pair of limits {1000,25,12,3,1,0,-1} issued back to back through one caching / monitoring wrapper on the 12- and 40-entry databases; shipped database on 40 queries x 4 limits x 4 paths; the real binary on 3 databases x 6 queries (recovery, typo, lexical) x 5 limits x 2 formats (printed entries <= limit in force and equal to the engine's answer). evaluations = entry-point calls checked; non-trivial = calls with a non-empty answer",
+		Rule:      "full product of: databases = {empty, 12 identical entries, 40 entries} + all subsets of <=2 (quick) / <=3 (thorough) entries of the 31-entry pool; queries = 15 specials + all 1-word + every 7th 2-word sequence over the 22-word alphabet (thorough: on databases of <=2 entries also all other 2-word sequences and 3-word sequences over 8 words); limits {-1,0,1,2,3,N,N+1,1000}; paths {lexical, NLP, fuzzy thr 0/-30, NLP+fuzzy thr 0/-30}; extras {default, pipeline-only, pipeline-boost, all-platforms, two context-boost maps, all-on}; entry points SearchUniversal and cached (hit) always, SearchWithPipelineOptions on the lexical path, Search / monitored / cached (miss) on defaults, recovery searches whenever the engine answer is empty; every ordered pair of limits {1000,25,12,3,1,0,-1} issued back to back through one caching / monitoring wrapper on the 12- and 40-entry databases; shipped database on 40 queries x 4 limits x 4 paths; the real binary on 3 databases x 6 queries (recovery, typo, lexical) x 5 limits x 2 formats (printed entries <= limit in force and equal to the engine's answer). evaluations = entry-point calls checked; non-trivial = calls with a non-empty answer; plus two wrappers in one process around different databases (12 ordered pairs of 4 databases x 4 queries x 3 paths x {cached, monitored, cached-then-monitored}) asked the same thing one after the other: the second answer must consist of entries of its own database and equal its uncached answer",
 		Assume:    []string{"map iteration order pinned (sorted keys) by build overlay", "default limit: 10 for SearchUniversal-based entry points, constants.DefaultSearchLimit for SearchWithPipelineOptions", "the CLI's truncation of recovery results is checked at process level in C17"},
 		QuickSecs: 300, ThorSecs: 3000,
 		Run: c01Run, Replay: c01Replay,
